@@ -250,7 +250,7 @@ func fmtProbe(args []string) {
 		for _, prop := range []string{"C02", "C03"} {
 			for _, mode := range []string{"N", "C"} {
 				if law := fmtFailedLaw(prop, mode, v); law != "" {
-					sigs, note := fmtAttribute(&r, prop, mode, law)
+					sigs, note := fmtAttribute(&r, prop, mode, law, true)
 					fmt.Printf("  %s %s %s -> %v %s\n", prop, mode, law, sigs, note)
 				}
 			}
